@@ -134,6 +134,7 @@ func groupFoundations(c *Ctx, withAlias bool) {
 	run.Rule("SIB-duality", "Sub* formulas are the sign-dual of their Add* twins", 4)
 	esib.CheckDuality(run, p, "SIB-duality")
 	checkSharedFresh(p, run.Rule("SHARED-fresh", "re-initialising an expanded point installs a fresh table", 2))
+	checkStaleCopies(p, run.Rule("STALE-copy", "a converted copy of an accumulator is never read after the accumulator it was converted from has been modified", 10), []string{"curve"})
 	if withAlias {
 		al := run.Rule("ALIAS", "point and scalar operations compute the same result when two same-typed pointer parameters denote one object", 100)
 		run.Sample(checkAliasing(al, p, []string{"curve", "curve/scalar"}))
